@@ -84,8 +84,14 @@ def gen_histories(ctx, path):
     return len(ex) + len(sim)
 
 
-def validate_trace(ctx, trace, what, expect_reject=False):
-    r = ctx.tlc("ControlPlane_Trace", cfg="ControlPlane_Trace", workers=1, env={"VERIF_TRACE": trace}, timeout=900)
+def validate_trace(ctx, trace, what, expect_reject=False, split=False):
+    if split:
+        # a2 registered under a third service name (VERIF_NAMING=split)
+        txt = open(os.path.join(vf.VERIF, "spec", "ControlPlane_Trace.cfg")).read()
+        txt = txt.replace('Services = {"A", "B"}', 'Services = {"A", "B", "C"}').replace("SvcOf <- MCSvcOf3", "SvcOf <- MCSvcOf3Split")
+        r = ctx.tlc("ControlPlane_Trace", cfg_text=txt, workers=1, env={"VERIF_TRACE": trace}, timeout=900)
+    else:
+        r = ctx.tlc("ControlPlane_Trace", cfg="ControlPlane_Trace", workers=1, env={"VERIF_TRACE": trace}, timeout=900)
     if r.timed_out or r.error:
         ctx.inconclusive("%s: trace validation did not complete: %s" % (what, r.error or "timeout"))
         return None
@@ -203,7 +209,7 @@ def run(ctx):
     cfgs = [("passing", "one", "critical")] + (alts if ctx.thorough else [alts[ctx.seed % len(alts)]])
     for k, (st, req, fs) in enumerate(cfgs):
         # every configuration after the first runs with dotted node names / service ids
-        if not one_pipeline(ctx, hist, st, req, fs, selftest=(k == 0), naming=("plain" if k == 0 else "dotted")):
+        if not one_pipeline(ctx, hist, st, req, fs, selftest=(k == 0), naming=("plain" if k == 0 else "dotted,split,mon%d" % (2 + (ctx.seed + k) % 2))):
             return
     if not e2e(ctx):
         return
